@@ -70,6 +70,14 @@ impl FifoQueue {
     }
 }
 
+#[cfg(dmd_core_verif)]
+impl FifoQueue {
+    /// The queued bytes in the order `pop` would return them.
+    pub fn verif_contents(&self) -> Vec<u8> {
+        (0..self.len).map(|i| self.buf[(self.read_ptr + i) % FIFO_LEN]).collect()
+    }
+}
+
 #[cfg(test)]
 mod test {
     use super::*;
